@@ -213,6 +213,7 @@ type Peer struct {
 	AutoAck         bool
 	Got             []*refmqtt.Packet // everything received, in order
 	GotStep         []int             // step index at which Got[i] was observed
+	GotSize         []int             // encoded size in bytes of Got[i]
 	WireErr         *WireError        // first hard (framing/format) error; decoding of this connection stopped there
 	Soft            []*WireError      // reason-code / property-whitelist objections; decoding continued
 	OpenedAt        int
@@ -807,7 +808,14 @@ func (r *Run) drain(s *Step, p *Peer) bool {
 					cls = de.Class
 				}
 				we := &WireError{Step: s.I, Class: cls, Msg: err.Error(), Bytes: append([]byte{}, b...), After: len(p.Got)}
-				if (cls == "reason-code" || cls == "property") && pk != nil && n > 0 && n <= len(b) {
+				if cls == "direction" && len(b) >= 2 {
+					// a packet type the server may not send on this connection, but possibly framed correctly: skip it as
+					// a unit so that what follows can still be judged
+					if plen, ok := framedLen(b); ok {
+						pk, n = &refmqtt.Packet{Type: b[0] >> 4, Version: p.Version}, plen
+					}
+				}
+				if (cls == "reason-code" || cls == "property" || cls == "direction") && pk != nil && n > 0 && n <= len(b) {
 					// the packet is framed correctly but uses a code / property the specification does not list
 					// for it: record the objection and keep reading (the packet is used as far as it was decoded)
 					we.Bytes = append([]byte{}, b[:n]...)
@@ -820,6 +828,7 @@ func (r *Run) drain(s *Step, p *Peer) bool {
 			b = b[n:]
 			p.Got = append(p.Got, pk)
 			p.GotStep = append(p.GotStep, s.I)
+			p.GotSize = append(p.GotSize, n)
 			s.Obs = append(s.Obs, Obs{Peer: p.ID, P: pk})
 			acted = r.react(s, p, pk) || acted
 		}
@@ -1073,4 +1082,20 @@ func clipBytes(b []byte) []byte {
 		return b[:40]
 	}
 	return b
+}
+
+// framedLen returns the total length of the packet at the front of b according to its fixed header, if complete.
+func framedLen(b []byte) (int, bool) {
+	v, mult := 0, 1
+	for i := 1; i < len(b) && i <= 4; i++ {
+		v += int(b[i]&0x7F) * mult
+		mult *= 128
+		if b[i]&0x80 == 0 {
+			if 1+i+v <= len(b) {
+				return 1 + i + v, true
+			}
+			return 0, false
+		}
+	}
+	return 0, false
 }
